@@ -126,6 +126,7 @@ def havoc_cell(eng, st, ident, hint_name=None, ls=None):
             nc = dict(cell)
             nc["keys"] = fresh("dkeys", VSq)
             nc["map"] = fresh("dmap", z3.ArraySort(Val, Val))
+            nc["log"] = fresh("dlog", VSq)
             st.heap[ident] = nc
         elif k == "obj":
             pass
@@ -206,9 +207,13 @@ def set_item(eng, st, bv, iv, v, node):
 # --------------------------------------------------------------------------- dicts
 # insertion-ordered association model: keys (VSq of boxed keys, distinct, insertion order) + Array key->value
 
-def new_dict(eng, st):
+def new_dict(eng, st, log=None):
+    """dict cell: insertion-ordered distinct keys + key->value map, plus the full insertion log (every
+    d[k] = v in order); the dict's content is a function of the log (Python: dict(pairs))."""
     ident = f"dict!{next(_ids)}"
-    st.heap[ident] = {"__kind__": "dict", "keys": VS.empty, "map": z3.K(Val, Val.VN)}
+    st.heap[ident] = {"__kind__": "dict", "keys": VS.empty if log is None else fresh("dkeys", VSq),
+                      "map": z3.K(Val, Val.VN) if log is None else fresh("dmap", z3.ArraySort(Val, Val)),
+                      "log": VS.empty if log is None else log}
     return VRef(ident, "dict")
 
 
@@ -225,6 +230,8 @@ def dict_set(eng, st, ref, cell, key, v):
     nc = dict(cell)
     nc["keys"] = z3.If(has, cell["keys"], VS.cat(cell["keys"], VS.unit(kt)))
     nc["map"] = z3.Store(cell["map"], kt, vt)
+    from .values import mk_vsq
+    nc["log"] = VS.cat(cell.get("log", VS.empty), VS.unit(Val.VT(mk_vsq([kt, vt]))))
     st.heap[ref.ident] = nc
 
 
